@@ -115,7 +115,7 @@ fn base_projects() -> Vec<Vec<Vec<&'static str>>> {
 
 pub fn run() -> i32 {
     let mut r = Report::new("C17");
-    r.rule = "fault catalogue of 73 rule faults (33 syntax, 40 raised at application time, 12 of them two-position errors with a wide first element, 8 unbalanced condensed rules) covering the RuleSyntaxError / RuleRuntimeError variants reachable from text, planted into 3 valid rule-group lists (1-3 groups x 1-3 lines, with blank, whitespace-only and comment lines) at every (group, line) position in three ways (replace the line, insert before, insert after); 14 alias faults at every line of a two-line deromaniser and romaniser; 14 word faults (6 of them diacritics whose prerequisites fail, after ASCII and after multi-byte characters) at every index of a 4-word list. Oracle: run is Err, the matching formatter does not panic, the reported rule group / line (alias kind / line, word) is the planted one and exists, the quoted line is the faulty line, and the caret line fits in [0, chars(line)+1]; a message that names a character of the word names the one under the caret. Non-trivial = error located at the planted position.".into();
+    r.rule = "fault catalogue of 73 rule faults (33 syntax, 40 raised at application time, 12 of them two-position errors with a wide first element, 8 unbalanced condensed rules) covering the RuleSyntaxError / RuleRuntimeError variants reachable from text, planted into 3 valid rule-group lists (1-3 groups x 1-3 lines, with blank, whitespace-only and comment lines) at every (group, line) position in three ways (replace the line, insert before, insert after); 18 alias faults (four of them after a precomposed letter) at every line of a two-line deromaniser and romaniser; 14 word faults (6 of them diacritics whose prerequisites fail, after ASCII and after multi-byte characters) at every index of a 4-word list. Oracle: run is Err, the matching formatter does not panic, the reported rule group / line (alias kind / line, word) is the planted one and exists, the quoted line is the faulty line, and the caret line fits in [0, chars(line)+1]; a message that names a character of the word names the one under the caret. Non-trivial = error located at the planted position.".into();
     let mut a = Acc::default();
     for proj in base_projects() {
         for g in 0..proj.len() { for l in 0..proj[g].len() { for mode in 0..3 { for fault in RULE_FAULTS {
@@ -130,7 +130,8 @@ pub fn run() -> i32 {
     r.guard(a.not_triggered * 20 < a.evals, "fewer than 5% of planted faults failed to trigger");
     // ---- alias faults
     let alias_faults_from = ["a >", "> x", "a:[+foo] > x", "a > x, y", "a:[+long > x", "[+voice > q", "a:[tone:12345] > x", "$ > x, y"];
-    let alias_faults_into = ["x >", "> a", "x > a:[+foo]", "x > [+voice]", "x > a:[-long, +overlong]", "x > a:[-stress, +sec.stress]"];
+    // the last four: the fault comes after a precomposed letter (which word normalisation would expand to two characters)
+    let alias_faults_into = ["x >", "> a", "x > a:[+foo]", "x > [+voice]", "x > a:[-long, +overlong]", "x > a:[-stress, +sec.stress]", "ã >", "ãõ > a:[+foo]", "ẽ > [+voice]", "ɚ > a, b"];
     let words: Vec<String> = vec!["pa.ta".into(), "xa".into()];
     let mut al_cases = 0u64; let mut al_ok = 0u64;
     for (is_into, faults) in [(false, &alias_faults_from[..]), (true, &alias_faults_into[..])] {
